@@ -256,7 +256,7 @@ def body_strs(st, fr):
 def walk_root(ctx, body):
     inv = P.Invariants()
     last = None
-    for rnd in range(8):
+    for rnd in range(20):
         w = ctx.walker(max_depth=4)
         w.no_inline = lambda p, d=body.defp: not p.startswith(d + "::")
         inv.install(w, body_strs)
@@ -270,7 +270,7 @@ def walk_root(ctx, body):
     w = ctx.walker(max_depth=4)
     w.no_inline = lambda p, d=body.defp: not p.startswith(d + "::")
     inv.install(w, body_strs)
-    return w.walk(body), inv, 9
+    return w.walk(body), inv, 99
 
 
 def cursor_progress(backs, lk, body):
@@ -294,8 +294,8 @@ def cursor_progress(backs, lk, body):
             if nv is None or nv == h:
                 continue
             RR = P.Reason(r.facts, r.trace)
-            d = RR.lower(affine(unsign(nv)).add(affine(h), -1))
-            if (d.k >= 1 and all(c >= 0 for c in d.c.values())) or r.facts.decide_atom(("lt", h, unsign(nv))) is True \
+            dvs = RR.lower_variants(affine(unsign(nv)).add(affine(h), -1))
+            if any(d.k >= 1 and all(c >= 0 for c in d.c.values()) for d in dvs) or r.facts.decide_atom(("lt", h, unsign(nv))) is True \
                     or RR.le(("bin", "Add", h, Int(1)), unsign(nv))[0]:
                 # bounded: header fact h < something
                 if any(a[0] == "lt" and p is True and a[1] == h for a, p in r.facts.order):
